@@ -2,7 +2,9 @@
 
 use crate::sched::Sim;
 
+pub mod c08;
 pub mod selftest;
+pub mod server;
 
 #[derive(Clone, Copy, PartialEq, Debug)]
 pub enum Tier {
@@ -94,6 +96,8 @@ pub const ASSUME: &[&str] = &[
 pub fn all() -> Vec<PropDef> {
     let mut v = Vec::new();
     v.push(selftest::def());
+    v.push(server::def_c04());
+    v.push(c08::def());
     v
 }
 
